@@ -86,6 +86,14 @@ def chk_brightest(inp):
     # stacks with more than one leading axis: every frame as if processed alone, with a threshold too
     st4 = rng.random((2, 3, 5, 6)) + 0.05
     sq4 = rng.random((3, 3, 5, 5)) + 0.05
+    for stack in (st4, sq4, rng.random((2, 2, 2, 4, 5)) + 0.05):
+        for frac in (0.1, 0.4):
+            full = CN.brightest_pixel(stack.copy(), frac)
+            for lead in numpy.ndindex(*stack.shape[:-2]):
+                alone = CN.brightest_pixel(stack[lead].copy(), frac)
+                if not close(numpy.asarray(full)[(slice(None),) + lead], alone):
+                    return bad("brightest_pixel(fraction %g) of a %s stack: frame %s differs from the frame processed alone" % (frac, list(stack.shape), list(lead)),
+                               numpy.asarray(full)[(slice(None),) + lead].tolist(), numpy.asarray(alone).tolist())
     for stack in (st4, sq4):
         for thr, mthr in ((0.0, 0), (0.3, 0), (0.5, 0.6)):
             full = CN.centre_of_gravity(stack, threshold=thr, min_threshold=mthr)
